@@ -38,6 +38,9 @@ addresses: [192.0.2.1/24]
 dhcp-policies:
   - match-subnet: 192.0.2.0/24
     apply-range: {start: 192.0.2.10, end: 192.0.2.40}
+    apply-domain-name: "a-rather-long-domain-name-for-the-clients-of-this-network.lan.example.org"
+    apply-root-path: "nfs://fileserver.lan.example.org/exports/diskless/clients/default-root-filesystem"
+    apply-wpad-url: "http://wpad.lan.example.org/proxy/autoconfiguration/wpad.dat?network=192.0.2.0"
 api-listeners: ["127.0.0.1:9968", "[::1]:9968"]
 dns-listeners: ["127.0.0.1:5353", "[::1]:5353", "127.0.0.3:5353"]
 dns-routes:
@@ -193,7 +196,7 @@ for step in script:
             continue
         got = {"dst_mac": f[0:6].hex(), "dst_ip": socket.inet_ntoa(f[30:34]), "src_ip": socket.inet_ntoa(f[26:30]),
                "dport": dport, "yiaddr": socket.inet_ntoa(payload[16:20]), "flags": struct.unpack("!H", payload[10:12])[0],
-               "chaddr": payload[28:34].hex(), "len": len(f)}
+               "chaddr": payload[28:34].hex(), "len": len(f), "frame": f.hex()}
         break
     out.append(got)
 print(json.dumps(out))
@@ -223,8 +226,11 @@ def scenario_dhcp(holder, rnd):
         meta.append({"kind": "hostile"})
         xid += 1
         mac = bytes([2, 0, 0, 0, 1, i])
-        steps.append({"hex": dhcp_packet(xid, mac, fl).hex(), "xid": xid, "wait": 1.0})
-        meta.append({"kind": "discover", "flags": fl, "mac": mac.hex()})
+        # every other DISCOVER asks (parameter request list) for the long options of the policy, so that
+        # replies both below and well above 300 octets are seen on the wire
+        prl = bytes([55, 9, 1, 3, 6, 15, 17, 28, 51, 54, 252]) if i % 2 == 0 else b""
+        steps.append({"hex": dhcp_packet(xid, mac, fl, extra=prl).hex(), "xid": xid, "wait": 1.0})
+        meta.append({"kind": "discover", "flags": fl, "mac": mac.hex(), "prl": 1 if prl else 0})
     p = subprocess.run(["nsenter", "-t", str(holder.pid), "-n", sys.executable, "-c", DHCP_CLIENT],
                        input=json.dumps(steps), stdout=subprocess.PIPE, stderr=subprocess.PIPE, text=True, timeout=60)
     if p.returncode != 0:
@@ -233,7 +239,7 @@ def scenario_dhcp(holder, rnd):
     obs = []
     for m, r in zip(meta, res):
         if m["kind"] == "discover":
-            obs.append({"flags": m["flags"], "mac": m["mac"], "reply": r})
+            obs.append({"flags": m["flags"], "mac": m["mac"], "prl": m.get("prl", 0), "reply": r})
     return {"offers": obs}
 
 
@@ -642,6 +648,8 @@ def scenario_dhcpflow(holder, rnd, logpath):
                 # the client now uses the address, like a real one, so that it can unicast
                 ip_batch(["addr add %s/24 dev veth1" % ack["yiaddr"]], holder.pid, check=False)
                 step("request-renewing", 3, 0, mac_a, 0, ciaddr=ack["yiaddr"], dst=server)
+                # a renewing client that asks for broadcast replies (legal: it may not be able to take unicast yet)
+                step("request-renewing-broadcast", 3, 0, mac_a, 0x8000, ciaddr=ack["yiaddr"], dst=server)
             step("request-foreign-server", 3, 2, mac_a, fl, opt(54, socket.inet_aton("192.0.2.99")) + opt(50, socket.inet_aton(y)), expect=False)
             if ack:
                 step("inform", 8, 0, mac_a, 0, ciaddr=ack["yiaddr"], dst=server, expect=False)
